@@ -1,6 +1,92 @@
 import AgVerif.Model.Proto
-open AgVerif AgVerif.Proto
+import AgVerif.Model.Loops
+import AgVerif.Model.Leb
+open AgVerif AgVerif.Proto AgVerif.Loops AgVerif.Gen.Loops
 
-def handle (_line : String) : String := "bad-op"
+def showHErr : HErr → String
+  | .parser => "parser" | .struct => "struct"
+
+def showEv : Ev → String
+  | .endDocument => "end" | .invalid => "invalid" | .raised => "raised"
+  | .startTag => "start" | .endTag => "endtag" | .text => "text"
+
+/-- repeated `_do_next` calls as AXMLPrinter drives them: events with the position after each call -/
+def axmlWalk (f : List Nat) (filesize : Nat) : Nat → Nat → List String → List String
+  | 0, _, acc => ("fuel" :: acc).reverse
+  | fuel + 1, pos, acc =>
+    match doNext f filesize pos with
+    | .exit n (ev, p) =>
+      let item := s!"{showEv ev}@{p}#{n}"
+      match ev with
+      | .startTag | .endTag | .text => axmlWalk f filesize fuel p (item :: acc)
+      | _ => (item :: acc).reverse
+    | .cond n p _ =>
+      -- position at or beyond the end of the file: the real body stops in the next iteration
+      let ev := if p = filesize then "end" else "invalid"
+      (s!"{ev}@{p}#{n + 1}" :: acc).reverse
+    | .stuck n p => (s!"stuck@{p}#{n}" :: acc).reverse
+
+/-- DebugInfoItem.__init__ at `pos`: number of bytecodes and end position -/
+def dbgItem (f : List Nat) (pos : Nat) : Option (Nat × Nat) :=
+  match lebSkip f pos with                       -- line_start
+  | none => none
+  | some p1 =>
+    match AgVerif.Leb.readUleb (f.drop p1) with  -- parameters_size
+    | none => none
+    | some (psize, n) =>
+      if psize > f.length then none               -- more uleb128p1 items than bytes: struct.error
+      else match lebSkipN f psize (p1 + n) with
+      | none => none
+      | some p2 =>
+        match f[p2]? with
+        | none => none
+        | some op =>
+          match dbgLoop f (p2 + 1) op with
+          | .exit steps true => some (steps, 0)
+          | _ => none
+
+/-- HiddenApiClassDataItem.__init__ at `offset`: offsets_size and the flag values -/
+def hiddenItem (f : List Nat) (offset : Nat) : String :=
+  match u32 f offset with
+  | none => "err"
+  | some ss =>
+    match hiddenLoop f offset ss with
+    | .exit n (some (os, p)) =>
+      -- for i in range(offsets_size): flag = readuleb128; RestrictionApiFlag(flag & 7), DomapiApiFlag(flag >> 3)
+      let rec flags : Nat → Nat → Option Nat
+        | 0, q => some q
+        | k + 1, q => match AgVerif.Leb.readUleb (f.drop q) with
+          | none => none
+          | some (v, m) => if v % 8 ≤ 6 ∧ v / 8 ≤ 2 then flags k (q + m) else none
+      if os.toNat > f.length then "err" else
+      match flags os.toNat p with
+      | some q => s!"ok {os.toNat} {q} {n}"
+      | none => "err"
+    | .exit _ none => "err"
+    | .cond n p st => s!"cond {n} {p} {st.1}"
+    | .stuck n p => s!"stuck {n} {p}"
+
+def handle (line : String) : String :=
+  match words line with
+  | ["hdr", st, h] => match st.toNat?, parseHex h with
+    | some start, some f => (match arscHeader f start with
+      | .ok hd => s!"ok {hd.type} {hd.hsize} {hd.size} {hd.after} {arscHeaderSteps f start}"
+      | .error e => s!"err {showHErr e}")
+    | _, _ => "bad-op"
+  | ["axml", fs, p, h] => match fs.toNat?, p.toNat?, parseHex h with
+    | some filesize, some pos, some f => " ".intercalate (axmlWalk f filesize (f.length + 2) pos [])
+    | _, _, _ => "bad-op"
+  | ["dbg", p, h] => match p.toNat?, parseHex h with
+    | some pos, some f => (match dbgItem f pos with
+      | some (n, _) => s!"ok {n}" | none => "err")
+    | _, _ => "bad-op"
+  | ["hidden", p, h] => match p.toNat?, parseHex h with
+    | some off, some f => hiddenItem f off
+    | _, _ => "bad-op"
+  | ["maplist", p, sz, h] => match p.toNat?, sz.toNat?, parseHex h with
+    | some pos, some size, some f => (match mapListLoop f pos size with
+      | .exit n r => s!"exit {n} {r}" | .cond n q _ => s!"cond {n} {q}" | .stuck n q => s!"stuck {n} {q}")
+    | _, _, _ => "bad-op"
+  | _ => "bad-op"
 
 def main : IO Unit := runMain handle
